@@ -71,6 +71,7 @@ class NonlinearCall(Unit):
     props = ("C17", "C06", "C11", "C10")
     fmodel = "ORDER"
     functions = [("cobyqa.problem", "NonlinearConstraints.__call__")]
+    replay = ("contracts.replays", "nonlinear_call")
     assumptions = [PCStub.__doc__.strip().replace("\n", " ")]
     parallel = True
 
